@@ -347,16 +347,38 @@ def set_type_validate(ctx):
             ok = ok and sel
     run.check(ok, 'R20', pd.where, pd.qualname, "if self.name.match(field['name']): field.update(options); record name for this resource",
               'options are merged into fields other than those whose name the pattern matches, or the names handed to the validator differ')
-    init = st.methods['__init__']
+    init0 = st.methods['__init__']
+    init = ctx.N(init0)             # (the pattern may be built by a helper)
     from rules.matchers import _parts, anchored, ungrouped_regex_parts
     from sa.deps import Facts as _Facts
     comp_ = [a_.value for a_ in ast.walk(init.node) if isinstance(a_, ast.Assign) and pseudo(a_.targets[0]) == 'self.name'
-             and isinstance(a_.value, ast.Call) and res.external_name(a_.value) == 're.compile' and a_.value.args]
+             and isinstance(a_.value, ast.Call) and u(a_.value.func) == 're.compile' and a_.value.args]
     full_ = False
     if len(comp_) == 1 and len(comp_[0].args) == 1 and not comp_[0].keywords:
         parts_ = _parts(ctx, comp_[0].args[0], init, _Facts(init, include_nested=False))
         full_ = anchored(parts_) and not ungrouped_regex_parts(parts_)
-    run.check(full_ and has_stmt('if not regex:\n    name = re.escape(name)', init.node),
+    # what goes between the anchors: the name as given when regex is on, re.escape(name) when it is off - decided on the paths through
+    # the constructor, on the value self.name has at the end of each
+    from sa.pathvals import PathValues as _PVi
+    from sa.model import norm_guard as _ngi
+    namep = init.params[1] if len(init.params) > 1 else 'name'
+    esc_ok, seen_rx = True, set()
+    for p_ in _En(where=init0.qualname).paths(init.node.body):
+        if p_.term == 'raise':
+            continue
+        pv_ = _PVi(p_)
+        rx = [pol_ for t_, pol_ in [_ngi(t0_, p0_) for t0_, p0_ in pv_.guards] if pseudo(t_) == 'regex']
+        val_ = pv_.env.get('self.name')
+        if val_ is None or not rx or len(set(rx)) != 1:
+            esc_ok = False
+            continue
+        seen_rx.add(rx[0])
+        txt_ = u(val_)
+        escaped = 're.escape(%s)' % namep in txt_
+        raw = namep in {n_.id for n_ in ast.walk(val_) if isinstance(n_, ast.Name)} and not escaped
+        esc_ok = esc_ok and (raw if rx[0] else escaped)
+    esc_ok = esc_ok and seen_rx == {True, False}
+    run.check(full_ and esc_ok,
               'R20', init.where, init.qualname, 'anchored pattern; re.escape when regex is off', 'the field-name pattern is not a full-string pattern')
     run.check(has_stmt('self.on_error = on_error', init.node) and has_stmt('self.options = options', init.node), 'R20', init.where, init.qualname,
               'on_error / options stored', 'set_type loses its on_error or options')
